@@ -48,3 +48,4 @@ out.write(f"TOTAL (non-test lines of /repo): {cov}/{tot}\n")
 print(f"covered {cov}/{tot} non-test executable lines of /repo")
 PY
 tail -3 $C/report.txt
+find /repo /verif -name "*.profraw" -not -path "*/target/*" -delete 2>/dev/null   # children that run with a cleared environment leave default-named profiles in their working directory
